@@ -20,8 +20,9 @@ most ``E * 2**-23 * sum(|b|)`` (standard recursive-summation bound, doubled).
 ``to_newick(round_distance=None)`` prints the repr of the float32 widened to
 double, which parses back to the same float32: exact equality is demanded.
 ``round_distance=k`` may move each branch by 0.5 * 10**-k (+ one float32 ulp).
-UPGMA / NJ work in float32 on at most 12 taxa: 64 * eps32 * max(D) for UPGMA
-heights, 1e-4 * max(D) for NJ path lengths (DESIGN C19).
+UPGMA / NJ work in float32 on at most 12 taxa: 64 * eps32 * (largest matrix entry
+among the leaves of the node) for UPGMA heights, 1e-4 * max(D) for NJ path lengths
+(DESIGN C19).
 """
 
 import itertools
@@ -362,14 +363,44 @@ SPECIAL_DIST = [0.0, 0.0, 1.0, 0.5, 2.0, 3.0, f32(0.1), f32(1e-7), f32(1e-30), f
 LABEL_ALPHABET = "abcxyzABC0123456789_-.+*/|#=%!?<>{}~^&@$äßλ日"
 
 
-def st_branch():
-    return st.one_of(
-        st.sampled_from(SPECIAL_DIST),
-        st.integers(0, 9).map(float),
-        st.floats(min_value=0.0, max_value=1000.0, width=32, allow_nan=False, allow_infinity=False),
-        st.floats(min_value=0.0, max_value=1000.0, width=32, allow_nan=False, allow_infinity=False),
-        st.floats(min_value=-10.0, max_value=1e6, width=32, allow_nan=False, allow_infinity=False),
-    )
+def branch_from_raw(r):
+    """float32-representable branch length from one drawn integer (cheap to generate, shrinks to 0.0)."""
+    cat, payload = r & 7, r >> 3
+    if cat == 0:
+        return SPECIAL_DIST[payload % len(SPECIAL_DIST)]
+    if cat == 1:
+        return float(payload % 10)
+    if cat in (2, 3, 4):
+        return f32((payload % 1000000) / 1000.0)
+    if cat == 5:
+        return f32((payload % 2**24) * 2.0**-24)
+    if cat == 6:
+        return float(payload % 2**20)
+    v = f32((payload % 10000) / 1000.0)
+    return -v if (payload >> 20) & 3 == 0 else v
+
+
+def st_branches(k):
+    return st.lists(st.integers(0, 2**31 - 1), min_size=k, max_size=k).map(lambda rs: [branch_from_raw(r) for r in rs])
+
+
+def labels_from_raws(raws):
+    """unique labels without Newick metacharacters or blanks"""
+    out = []
+    seen = set()
+    base = len(LABEL_ALPHABET)
+    for pos, r in enumerate(raws):
+        txt = ""
+        r += 1
+        while r > 0:
+            txt += LABEL_ALPHABET[r % base]
+            r //= base
+        while txt in seen:
+            txt += LABEL_ALPHABET[pos % base]
+            pos += 7
+        seen.add(txt)
+        out.append(txt)
+    return out
 
 
 def shape_from_raws(raws, window):
@@ -437,18 +468,21 @@ def st_tree_case(tier):
             parent = shape_from_raws(raws, window)
         m = len(parent)
         zero_heavy = draw(st.integers(0, 7)) == 0
-        bst = st.sampled_from([0.0, 0.0, 1.0]) if zero_heavy else st_branch()
-        dists = draw(st.lists(bst, min_size=m - 1, max_size=m - 1))
+        if zero_heavy:
+            dists = draw(st.lists(st.sampled_from([0.0, 0.0, 1.0]), min_size=m - 1, max_size=m - 1))
+        else:
+            dists = draw(st_branches(m - 1))
+            if draw(st.integers(0, 3)) != 0:
+                dists = [abs(x) for x in dists]  # negative branch lengths only in a quarter of the cases
         has_child = set(p for p in parent if p is not None)
         n_leaves = m - len(has_child)
         perm = draw(st.permutations(list(range(n_leaves))))
         spec = spec_from_parents(parent, dists, perm)
         extra = draw(st.integers(0, 2))
-        labels = draw(
-            st.lists(st.text(LABEL_ALPHABET, min_size=1, max_size=6), min_size=n_leaves + extra, max_size=n_leaves + extra, unique=True)
-        )
+        labels = labels_from_raws(draw(st.lists(st.integers(0, 46**4), min_size=n_leaves + extra, max_size=n_leaves + extra)))
         ws = [draw(st.integers(1, len(WS_CHOICES) - 1))] + draw(st.lists(st.integers(0, len(WS_CHOICES) - 1), min_size=2, max_size=11))
-        pairs = draw(st.lists(st.tuples(st.integers(0, 10**4), st.integers(0, 10**4)), min_size=4, max_size=24))
+        flat = draw(st.lists(st.integers(0, 10**4), min_size=8, max_size=48))
+        pairs = list(zip(flat[0::2], flat[1::2]))
         case = {
             "tree": spec,
             "labels": labels,
@@ -526,7 +560,7 @@ SCALES = [1.0, 1.0, 1.0, 0.125, 1e-3, 1000.0, 1e6, 2.0**-20]
 
 
 def st_weights(k, mode):
-    """k edge weights.  small_int: 0..3 (zeros, ties); int: 1..10; float: generic positive;
+    """k edge weights.  small_int: 0..3 (zeros, ties); int: 1..10; float: generic positive; log: 1e-6..1 log-uniform;
     mixed: floats with zeros and repeated values."""
     if mode == "small_int":
         el = st.integers(0, 3).map(float)
@@ -534,6 +568,8 @@ def st_weights(k, mode):
         el = st.integers(1, 10).map(float)
     elif mode == "float":
         el = st.floats(min_value=0.01, max_value=10.0, allow_nan=False)
+    elif mode == "log":
+        el = st.floats(min_value=-6.0, max_value=0.0, allow_nan=False).map(lambda e: 10.0**e)
     else:
         el = st.one_of(st.floats(min_value=0.0, max_value=10.0, allow_nan=False), st.sampled_from([0.0, 1.0, 0.5]))
     return st.lists(el, min_size=k, max_size=k)
@@ -543,7 +579,7 @@ def st_weights(k, mode):
 def st_additive_tree(draw, min_n, max_n):
     n = draw(st.integers(min_n, max_n))
     attach = draw(st.lists(st.integers(0, 10**4), min_size=max(n - 2, 0), max_size=max(n - 2, 0)))
-    mode = draw(st.sampled_from(["small_int", "int", "float", "float", "mixed"]))
+    mode = draw(st.sampled_from(["small_int", "int", "float", "float", "log", "mixed"]))
     scale = draw(st.sampled_from(SCALES))
     if mode in ("small_int", "int") and scale not in (1.0, 0.125, 2.0**-20):
         scale = 1.0  # keep every path sum exactly representable in float32
@@ -557,7 +593,7 @@ def st_matrix_case(tier, min_n):
     @st.composite
     def gen(draw):
         n = draw(st.integers(min_n, 12))
-        kind = draw(st.sampled_from(["int", "int", "int", "float", "float", "float", "const", "ultra", "ultra", "ultra", "additive", "additive", "additive"]))
+        kind = draw(st.sampled_from(["int", "int", "int", "float", "float", "logfloat", "logfloat", "const", "ultra", "ultra", "ultra", "additive", "additive", "additive"]))
         scale = draw(st.sampled_from(SCALES))
         dtype = draw(st.sampled_from(["float64", "float32", "float64"]))
         if kind == "int":
@@ -570,6 +606,13 @@ def st_matrix_case(tier, min_n):
                 dtype = "int64"
             else:
                 d = d * scale
+        elif kind == "logfloat":
+            vals = draw(
+                st.lists(st.floats(min_value=-6.0, max_value=0.0, allow_nan=False), min_size=n * (n - 1) // 2, max_size=n * (n - 1) // 2)
+            )
+            d = np.zeros((n, n))
+            d[np.triu_indices(n, 1)] = [10.0**e for e in vals]
+            d = (d + d.T) * scale
         elif kind == "float":
             vals = draw(
                 st.lists(st.floats(min_value=0.0, max_value=1.0, allow_nan=False), min_size=n * (n - 1) // 2, max_size=n * (n - 1) // 2)
@@ -680,17 +723,26 @@ def run_upgma(case):
     if not check_leaves(o, tree, n, "every_index_exactly_one_leaf"):
         return o
     scale = float(d.max()) if n > 1 else 0.0
-    tol = 64 * EPS32 * scale + TINY
     root = CNode(tree.root, None)
     inner = [c for c in root.walk() if c.children]
     o.check(all(len(c.children) == 2 for c in inner), "upgma_tree_is_binary", lambda: f"child counts {[len(c.children) for c in inner]}")
     if any(len(c.children) != 2 for c in inner):
         return o
+
+    # Tolerances are local: the float32 running means and heights below a node only involve
+    # matrix entries between leaves of that node, so their error is a few eps32 of the largest such
+    # entry (measured: < 1 eps32; allowed: 64 eps32).
+    def local_tol(leaves):
+        return 64 * EPS32 * float(d[np.ix_(leaves, leaves)].max()) + TINY
+
     ref_height = {}
+    tol_of = {}
     for c in root.walk():
         if not c.children:
             ref_height[id(c)] = 0.0
+            tol_of[id(c)] = TINY
             continue
+        tol = tol_of[id(c)] = local_tol(c.leaves)
         # ultrametric: every leaf below the node is equally far away
         lo, hi = min(c.leaf_dists), max(c.leaf_dists)
         o.check(hi - lo <= 2 * tol, "upgma_ultrametric", lambda: f"node over {sorted(c.leaves)}: leaf depths {lo!r} .. {hi!r} (tol {tol:g})")
@@ -706,6 +758,7 @@ def run_upgma(case):
     zero_branch = False
     for c in root.walk():
         if c.parent is not None:
+            tol = tol_of[id(c.parent)]
             o.check(c.branch >= -2 * tol, "upgma_ultrametric", lambda: f"negative branch {c.branch!r} above {sorted(c.leaves)}")
             if c.branch == 0:
                 zero_branch = True
@@ -721,7 +774,9 @@ def run_upgma(case):
         for c in allnodes:
             if c.parent is None or xs & set(c.leaves):
                 continue
-            if ref_height[id(c)] < hx - 2 * tol and ref_height[id(c.parent)] > hx + 2 * tol:
+            margin = 2 * (tol_of[id(x)] + tol_of[id(c.parent)])
+            if ref_height[id(c)] < hx - margin and ref_height[id(c.parent)] > hx + margin:
+                tol = local_tol(x.leaves + c.leaves)
                 for side in (a, b):
                     v = float(np.mean(d[np.ix_(side.leaves, c.leaves)]))
                     o.check(
@@ -1199,7 +1254,7 @@ SUBS = [
         "upgma",
         st_upgma,
         run_upgma,
-        quick=1800,
+        quick=1700,
         thorough=60000,
         rule="n >= 5 and some merge step has a tie (two pairs at the minimal mean distance)",
         clauses="every index one leaf; binary; ultrametric (equal leaf depths, no negative branch); "
@@ -1218,7 +1273,7 @@ SUBS = [
         "nj_any",
         st_nj_any,
         run_nj_any,
-        quick=700,
+        quick=600,
         thorough=25000,
         rule="n >= 5",
         clauses="every index one leaf; documented shape; finite branches - on arbitrary symmetric non-negative matrices",
